@@ -311,7 +311,8 @@ def scan_bounds(cx):
     tgt = cx.sfx("Raft::has_unapplied_conf_changes")
     n = 0
     for c in cx.prog.call_sites_of(tgt):
-        args = call_args(cx, c)
+        from ..engine import spread_ranges
+        args = spread_ranges(call_args(cx, c))
         lo, hi = args[1], args[2]
         key = cx.site_key(c, "scan")
         ok_hi = hi[0] == "bin" and hi[1] == "Add" and any(is_f(x, "RaftLog.committed") for x in hi[2:4]) and ("int", 1) in hi[2:4]
